@@ -17,6 +17,7 @@ func checkC02(p *Program, r *Result) {
 		"(C02.c) with a metadata callback installed, every iteration over the metadata indexes either returns an error or invokes the callback on the record parsed from that entry's offset, and the sequential iterator invokes it for every metadata token; " +
 		"(C02.d) GetAttachmentReader seeks to offset+9 and GetMetadata to offset, the convention under which the writer records index offsets (position of the opcode byte); " +
 		"(C02.e) Reader.Messages returns the index-based iterator only on the branch where the gate is true; " +
+		"(C02.p) Reader.Info saves the position of the shared stream before it reads the summary and restores it on every path afterwards (the sequential fallback continues from wherever the stream stands); " +
 		"(C02.m) between the construction of the iterator that Reader.Messages returns and the return, nothing sets the shared lexer's emitChunks switch to the other mode; " +
 		"(C02.g) the record NextInto yields is sliced from the chunk slot and offset of the queue entry at the cursor; " +
 		"(C02.f) when it.order can be FileOrder, chunks are sorted by ascending ChunkStartOffset and no sort/reverse of the pending-message queue can execute; " +
@@ -38,6 +39,8 @@ func checkC02(p *Program, r *Result) {
 	checkSlotOwnership(p, r, "C02.o")
 	checkBindingKeys(p, r, "C02.b")
 	checkPositionedReads(p, r)
+	r.rule("C02.p", "Reader.Info leaves the shared stream where it found it", 1)
+	checkInfoRestoresPosition(p, r, "C02.p")
 	r.rule("C02.n", "a chunk index without message indexes is never dropped by the channel filter", 0)
 	checkKeepWithoutMessageIndexes(p, r, "C02.n")
 	r.rule("C02.m", "the shared lexer is in the mode of the iterator that Messages returns", 2)
